@@ -959,9 +959,11 @@ impl TypeChecker {
 
                 let ctx = ctx.with_type(Type::bool());
 
-                let mut diverges = false;
-                diverges |= self.expr(scope, &ctx, left)?;
-                diverges |= self.expr(scope, &ctx, right)?;
+                // The right operand is skipped when the left one decides,
+                // so only the left operand can make the whole expression
+                // diverge.
+                let diverges = self.expr(scope, &ctx, left)?;
+                self.expr(scope, &ctx, right)?;
                 Ok(diverges)
             }
             Lt | Le | Gt | Ge => {
